@@ -242,7 +242,7 @@ def run_part_b(report, tier):
     from ..common import NPROC
 
     bound = 1 if tier == "quick" else 2
-    deadline = time.time() + (60 if tier == "quick" else 900)
+    deadline = time.time() + (240 if tier == "quick" else 900)
     ctx = multiprocessing.get_context("fork")
     total = collections.Counter()
     outcomes = collections.Counter()
